@@ -3,4 +3,10 @@
 #![allow(unused_imports, dead_code, clippy::all)]
 
 #[cfg(kani)]
+mod refmodel;
+#[cfg(kani)]
 mod c17;
+#[cfg(kani)]
+mod c18;
+#[cfg(kani)]
+mod exp;
